@@ -367,3 +367,43 @@ func TestC02_Procs(t *testing.T) {
 		rec.Case(tie || cut, map[string]any{"cross_process": true, "db": gen.BriefDB(cmds, 6), "query": q, "options": optBrief(opt), "helper_out": strings.TrimSpace(outs[0])}, labels...)
 	})
 }
+
+// TestC02_Huge: databases beyond any size at which an implementation may switch to chunked or
+// parallel processing (8200-20000 entries), with groups of identical entries spread over the
+// whole list, asked questions that every stage can answer: lexical, language-stage and typo
+// fallback. Ties between entries far apart are where a merge of partial results shows.
+func TestC02_Huge(t *testing.T) {
+	rec := stat.For("C02")
+	rapid.Check(t, func(t *rapid.T) {
+		n := rapid.SampledFrom([]int{8200, 9000, 12000, 16500, 20000}).Draw(t, "n")
+		cmds := gen.Bulk(t, n, gen.CmdOpts{})
+		word := rapid.SampledFrom([]string{"wyvernquoz", "qzjxvk", "xyzzyplugh"}).Draw(t, "word")
+		groups := rapid.IntRange(1, 3).Draw(t, "groups")
+		for g := 0; g < groups; g++ {
+			twin := database.Command{Command: fmt.Sprintf("%s run%d", word, g), Description: "one of many identical entries"}
+			for k, copies := 0, rapid.SampledFrom([]int{12, 40, 120}).Draw(t, "copies"); k < copies; k++ {
+				cmds[rapid.IntRange(0, n-1).Draw(t, "twin-at")] = twin
+			}
+		}
+		db, db2 := gen.Load(t, cmds), gen.Load(t, cmds)
+		d := rapid.IntRange(1, len(word)-2).Draw(t, "drop")
+		queries := []string{word, word[:d] + word[d+1:], word + " run0", "find " + word}
+		for _, q := range queries {
+			for _, opt := range []database.SearchOptions{
+				{Limit: rapid.SampledFrom([]int{3, 10, 50, 1000}).Draw(t, "limit"), UseFuzzy: true, AllPlatforms: true},
+				{Limit: 10, UseFuzzy: true, UseNLP: true, AllPlatforms: true},
+			} {
+				first := rank(db, db.SearchUniversal(q, opt))
+				for rep := 0; rep < 5; rep++ {
+					if again := rank(db, db.SearchUniversal(q, opt)); !rankEq(first, again) {
+						t.Fatalf("repetition %d differs on a database of %d entries for query %q options %v\n first: %s\n again: %s", rep+1, n, q, optBrief(opt), rankStr(first), rankStr(again))
+					}
+				}
+				if other := rank(db2, db2.SearchUniversal(q, opt)); !rankEq(first, other) {
+					t.Fatalf("independently loaded copy of %d entries differs for query %q options %v\n first: %s\n other: %s", n, q, optBrief(opt), rankStr(first), rankStr(other))
+				}
+			}
+		}
+		rec.Case(true, map[string]any{"huge": true, "db_size": n, "word": word, "groups": groups}, "huge-database")
+	})
+}
